@@ -39,8 +39,10 @@ Expect(d, c) == IF d # 0 /\ Known(d) /\ Accepts(cfg.collectors[FilterOf(d)].f, c
 \* C12: reload values in effect during [s, e]
 \* (a reloadable Option<filter> whose value is None is an absent layer: everything passes)
 RAccepts(v, c) == v.none \/ (c.lvl <= v.thr /\ c.tgt \in SetOf(v.tgts))
-\* an EnvFilter value may carry the span-scoped directive [w]=trace: everything inside a span named w is enabled
-RAcceptsIn(v, c, inspan) == RAccepts(v, c) \/ (v.span /\ inspan)
+\* an EnvFilter value may carry the span-scoped directive [w]=<level> (spanl, 0 = none): inside a span named w events up to it are enabled
+\* (the harness's span w is an INFO span of target a: it exists, and can be entered, only if the value enables it)
+SpanOn(v) == RAccepts(v, [lvl |-> 3, tgt |-> "a"]) \/ v.spanl >= 3
+RAcceptsIn(v, c, inspan) == RAccepts(v, c) \/ (inspan /\ SpanOn(v) /\ c.lvl <= v.spanl)
 Completed(s) == {i \in DOMAIN cfg.reloads : cfg.reloads[i].e < s}
 Latest(s) == IF Completed(s) = {} THEN 0
              ELSE cfg.reloads[CHOOSE i \in Completed(s) : \A j \in Completed(s) : cfg.reloads[j].e <= cfg.reloads[i].e].v
